@@ -1,7 +1,8 @@
 /-
   Externals of the generated model: the few library functions the translated subset cannot express
   (loops over bytes, numpy, libm).  Each is bound to its hand-written model, which is tied to the code
-  by the correspondence check of the property that owns it (C01 crc, C06 cprNL).
+  by the correspondence check of the property that owns it (C06 cprNL).  `crc` is no longer an external: the generated
+  loop is tied to the hand model by `Tie.crc_tie`.
 -/
 import PyModeS.Py.Val
 import PyModeS.Model.CPR
@@ -10,12 +11,6 @@ import PyModeS.Py.FloatBridge
 
 namespace PyModeS.Gen.Ext
 open PyModeS PyModeS.Py
-
-/-- `common.crc(msg, encode)` (py_common.crc, modelled in Model/Common.lean, property C01) -/
-def common_crc (msg encode : Val) : Res Val :=
-  match msg with
-  | .str m => if m.length < 6 ∨ !(m.all (fun c => (hexVal? c).isSome)) then .exc else .val (Val.ofNat (crc m encode.truth))
-  | _ => .exc
 
 /-- `common.cprNL(lat)` (Model/CPR.lean, property C06) -/
 def common_cprNL (lat : Val) : Res Val :=
